@@ -166,7 +166,7 @@ func runC20PipeTCP(pl *plan.Plan, out *plan.Outcome) {
 		cp.CloseMsgChan()
 	})
 	if res := env.Run(); res != "done" && out.Trouble == "" {
-		out.Trouble = "run ended: " + res
+		env.runEnded(res, out)
 		return
 	}
 	c20CheckWindow(plainEnv{pl, out}, want)
